@@ -367,4 +367,76 @@ CANARIES = {
             "cases": ["interrupt/p1/warmup/2+2"], "what": "the main stage runs although warm-up was interrupted",
         },
     },
+    "C04": {
+        "line_search_step_mismatch": {
+            "module": "mici.solvers",
+            "old": "                if new_error < error or j == max_line_search_iters - 1:\n                    break",
+            "new": "                if new_error < error:\n                    break",
+            "cases": ["contract/line_search"], "what": "the original defect: exhausted line search halves the step once more than the position moved",
+        },
+        "newton_returns_on_position_only": {
+            "module": "mici.solvers",
+            "old": "            if error < constraint_tol and norm(delta_pos) < position_tol:\n                state.mom -= np.sign(time_step) * dh2_flow_mom_dmom @ mu\n                return state\n            mu += delta_mu\n            state.pos -= delta_pos\n    except (ValueError, LinAlgError) as e:\n        # Make robust to errors in intermediate linear algebra ops\n        msg = f\"{type(e)} at iteration {i} of Newton solver ({e}).\"",
+            "new": "            if norm(delta_pos) < position_tol:\n                state.mom -= np.sign(time_step) * dh2_flow_mom_dmom @ mu\n                return state\n            mu += delta_mu\n            state.pos -= delta_pos\n    except (ValueError, LinAlgError) as e:\n        # Make robust to errors in intermediate linear algebra ops\n        msg = f\"{type(e)} at iteration {i} of Newton solver ({e}).\"",
+            "cases": ["contract/newton"], "what": "Newton solver returns when the position update is small regardless of the residual",
+        },
+        "momentum_correction_sign": {
+            "module": "mici.solvers",
+            "old": "                state.mom -= np.sign(time_step) * dh2_flow_mom_dmom @ mu\n                return state\n            mu += delta_mu\n            state.pos -= delta_pos\n    except (ValueError, LinAlgError) as e:\n        # Make robust to errors in intermediate linear algebra ops\n        msg = f\"{type(e)} at iteration {i} of quasi-Newton solver ({e}).\"",
+            "new": "                state.mom -= dh2_flow_mom_dmom @ mu\n                return state\n            mu += delta_mu\n            state.pos -= delta_pos\n    except (ValueError, LinAlgError) as e:\n        # Make robust to errors in intermediate linear algebra ops\n        msg = f\"{type(e)} at iteration {i} of quasi-Newton solver ({e}).\"",
+            "cases": ["contract/quasi_newton"], "what": "momentum correction ignores the sign of the time step",
+        },
+        "projection_transposed_jacobian_missing": {
+            "module": "mici.systems",
+            "old": "        mom -= self.jacob_constr(state).T @ (",
+            "new": "        mom -= 0.5 * self.jacob_constr(state).T @ (",
+            "cases": ["projection/constr/diag/sphere"], "what": "cotangent projection removes only half of the normal component",
+        },
+    },
+    "C16": {
+        "slow_stage_budget_off_by_final": {
+            "module": "mici.stagers",
+            "old": "            n_slow_stage_iter = (\n                n_warm_up_iter - n_init_fast_stage_iter - n_final_fast_stage_iter\n            )",
+            "new": "            n_slow_stage_iter = (\n                n_warm_up_iter - n_init_fast_stage_iter\n            )",
+            "cases": ["windowed/mult2.0"], "what": "slow stages also consume the final fast stage's iterations: warm-up total exceeds the request",
+        },
+        "slow_adapters_in_fast_stage": {
+            "module": "mici.stagers",
+            "old": "            sampling_stages[\"Final fast adaptive\"] = ChainStage(\n                n_iter=n_final_fast_stage_iter,\n                adapters=fast_adapters,",
+            "new": "            sampling_stages[\"Final fast adaptive\"] = ChainStage(\n                n_iter=n_final_fast_stage_iter,\n                adapters=adapters,",
+            "cases": ["windowed/mult2.0"], "what": "slow adapters active in the final fast stage",
+        },
+        "zero_length_stage_runs_adapters": {
+            "module": "mici.samplers",
+            "old": "                    if stage.n_iter == 0:\n",
+            "new": "                    if stage.n_iter < 0:\n",
+            "cases": ["sampler/windowed/slowTrue/chains1"], "what": "the original defect: zero-length stages initialise and finalise adapters",
+        },
+    },
+    "C17": {
+        "dual_averaging_error_weight": {
+            "module": "mici.adapters",
+            "old": "        error_weight = 1 / (self.iter_offset + adapt_state[\"iter\"])",
+            "new": "        error_weight = 1 / (self.iter_offset + adapt_state[\"iter\"] + 1)",
+            "cases": ["dual/single"], "what": "off-by-one in the dual-averaging error weight",
+        },
+        "variance_merge_weight": {
+            "module": "mici.adapters",
+            "old": "                        mean_diff**2 * (adapt_state[\"iter\"] * n_iter_prev) / n_iter\n                    )\n        if n_iter < 2:  # noqa: PLR2004\n            msg = \"At least two chain samples required to compute a variance estimates.\"\n            raise AdaptationError(msg)\n        var_est /= n_iter - 1",
+            "new": "                        mean_diff**2 * (adapt_state[\"iter\"] * n_iter_prev) / (n_iter + 1)\n                    )\n        if n_iter < 2:  # noqa: PLR2004\n            msg = \"At least two chain samples required to compute a variance estimates.\"\n            raise AdaptationError(msg)\n        var_est /= n_iter - 1",
+            "cases": ["var/dim1/n3/g0"], "what": "wrong weight when merging per-chain sums of squares (only visible with unequal chains)",
+        },
+        "search_returns_without_crossing": {
+            "module": "mici.adapters",
+            "old": "                if (step_size_too_big and delta_h <= delta_h_threshold) or (",
+            "new": "                if (step_size_too_big and delta_h <= 2 * delta_h_threshold) or (",
+            "cases": ["search"], "what": "initial search threshold inconsistent between the two directions",
+        },
+        "momentum_not_refreshed": {
+            "module": "mici.adapters",
+            "old": "        transition.system.metric = PositiveDiagonalMatrix(var_est).inv\n        # Resample momentum to account for altered distribution due to new metric\n        for chain_state, rng in zip(chain_states, rngs, strict=True):",
+            "new": "        transition.system.metric = PositiveDiagonalMatrix(var_est).inv\n        # Resample momentum to account for altered distribution due to new metric\n        for chain_state, rng in zip(chain_states[:0], rngs[:0], strict=True):",
+            "cases": ["var/dim1/n2/g0"], "what": "momenta keep their old distribution after the metric changed",
+        },
+    },
 }
